@@ -1246,7 +1246,12 @@ try_stmt:
 	{
 		if len($4) == 0 {
 			// try needs an except clause or a finally clause; else needs an except clause
-			yylex.(*yyLex).SyntaxError("invalid syntax")
+			if yylex.(*yyLex).eof {
+				// the input ended here: more may follow (interactive input is still incomplete)
+				yylex.(*yyLex).SyntaxError("unexpected EOF while parsing")
+			} else {
+				yylex.(*yyLex).SyntaxError("invalid syntax")
+			}
 		}
 		$$ = &ast.Try{StmtBase: ast.StmtBase{Pos: $<pos>$}, Body: $3, Handlers: $4}
 	}
@@ -1254,7 +1259,12 @@ try_stmt:
 	{
 		if len($4) == 0 {
 			// try needs an except clause or a finally clause; else needs an except clause
-			yylex.(*yyLex).SyntaxError("invalid syntax")
+			if yylex.(*yyLex).eof {
+				// the input ended here: more may follow (interactive input is still incomplete)
+				yylex.(*yyLex).SyntaxError("unexpected EOF while parsing")
+			} else {
+				yylex.(*yyLex).SyntaxError("invalid syntax")
+			}
 		}
 		$$ = &ast.Try{StmtBase: ast.StmtBase{Pos: $<pos>$}, Body: $3, Handlers: $4, Orelse: $7}
 	}
@@ -1266,7 +1276,12 @@ try_stmt:
 	{
 		if len($4) == 0 {
 			// try needs an except clause or a finally clause; else needs an except clause
-			yylex.(*yyLex).SyntaxError("invalid syntax")
+			if yylex.(*yyLex).eof {
+				// the input ended here: more may follow (interactive input is still incomplete)
+				yylex.(*yyLex).SyntaxError("unexpected EOF while parsing")
+			} else {
+				yylex.(*yyLex).SyntaxError("invalid syntax")
+			}
 		}
 		$$ = &ast.Try{StmtBase: ast.StmtBase{Pos: $<pos>$}, Body: $3, Handlers: $4, Orelse: $7, Finalbody: $10}
 	}
